@@ -562,6 +562,7 @@ def et_tree(el):
 
 
 _ET = {}
+EXPAT_ENCODINGS = (b"UTF-8", b"UTF-16", b"ISO-8859-1", b"US-ASCII")
 
 
 def et_events(seg):
@@ -571,6 +572,12 @@ def et_events(seg):
         return r
     if len(_ET) > 2000:
         _ET.clear()
+    m = re.match(rb"\s*<\?xml[^>]*?encoding\s*=\s*[\'\"]([^\'\"]*)", seg[:200])
+    if m and m.group(1).upper() not in EXPAT_ENCODINGS:
+        # pyexpat resolves further encoding names through Python's codecs (unknown-encoding handler);
+        # libstrophe installs none and refuses them: no verdict from ElementTree
+        r = _ET[seg] = (None, None)
+        return r
     evs = []
     failed = False
     depth = 0
